@@ -39,17 +39,19 @@ Definition C13_T1_holds : Prop := forall s : str, has_close_tag (neutralise s) =
 Definition C13_T1_refuted : Prop := exists s : str, has_close_tag (neutralise s) = true.
 
 (* ======================================================================================
-   FLIP (one line).  On the unchanged tree the literals are the lower-case close tag only,
-   and the demanded statement is FALSE (finding F3; witness: the close tag in upper case):
-   the line below reads  C13_T1_refuted.  In the commit that repairs the literals in
-   serialize_to_script_json, change  C13_T1_refuted  to  C13_T1_holds  on that line; nothing
-   else changes (the proof script picks the matching lemma; harness/props/C13.py reads this
-   line to tell which of the two is being claimed).
+   T1 at full strength, for the code as it is in /repo:  C13_T1_holds.
+   History: before fix dfbc841 the literals neutralised the lower-case close tag only, this
+   line read  C13_T1_refuted  and was proved with the upper-case close tag as witness
+   (finding F3, fixed).  The proof script still picks whichever of the two lemmas applies, so
+   if the literals ever regress the line below stops compiling (it cannot be proved) and the
+   check fails at step A; harness/props/C13.py reads this line and reports the obligation
+   -theorem C13_no_close_tag (T1 at full strength)- as discharged only while it says
+   C13_T1_holds.
    ====================================================================================== *)
 Theorem C13_no_close_tag_status : C13_T1_holds.
 Proof.
   first [ exact (no_close_tag_of_ok neutralise_from neutralise_to eq_refl)
-        | apply close_tag_witness; vm_compute; reflexivity ].
+        | apply (close_tag_witness neutralise_from neutralise_to); vm_compute; reflexivity ].
 Qed.
 Print Assumptions C13_no_close_tag_status.
 
